@@ -12,7 +12,11 @@ Strs ==
   \cup { Encode(h, <<0>> \o Pay(32, 1)).str : h \in { <<105,111,116>>, <<105,111,116,97,97>>, <<116,111,105,97>>, <<115,109,114,49>>, <<73,79,84,65>>, <<114,109,115>> } }
   \cup { UpperS(Encode(NetPrefixes[p], <<v>> \o Pay(VersionLen(v), 9)).str) : p \in 1..4, v \in {0, 8, 16} }
   \cup { Encode(NetPrefixes[2], <<>>).str, Encode(NetPrefixes[2], <<0>>).str, Encode(NetPrefixes[2], <<8>>).str }
-Vectors == SetToSeq({P(t) : t \in Strs \ {<<>>}})
+\* payloads whose 5-bit regrouping leaves padding bits: every non-zero padding pattern under a valid checksum
+PadStrs == UNION { LET syms == ToBase32(<<v>> \o Pay(n, 2)) last == syms[Len(syms)]
+                   IN { Encode5(NetPrefixes[p], [syms EXCEPT ![Len(syms)] = last + d]) : d \in 1..((2 ^ ((5 * Len(syms)) % 8)) - 1) }
+                   : p \in {1, 4}, v \in {0, 8, 16}, n \in {20, 32} }
+Vectors == SetToSeq({P(t) : t \in (Strs \cup PadStrs) \ {<<>>}})
            \o SetToSeq({A(p, v, Pay(VersionLen(v), k)) : p \in 0..3, v \in {0, 8, 16}, k \in {0, 77, 255}})
 ASSUME ndJsonSerialize("gen.ndjson", Vectors)
 ASSUME PrintT(<<"VERIF-GEN", Len(Vectors)>>)
